@@ -157,13 +157,7 @@ def check(run: Run) -> None:
                       f"selecting {mem.member} reads {getattr(v, 'args', '?')} instead of note.{sel_want[mem.member]}", file=FILE_X)
         if ok and mem.member == "NOTE":
             run.check("C09.R3", "S note renders notes", isinstance(v, FuncV) and v.qualname.endswith("_select_note"), "_get_selector", f"NOTE -> {v}", "NOTE is not rendered by _select_note", file=FILE_X)
-    # every _select_* de-duplicates and sorts only under alpha
-    for nm in ("_select_tags", "_select_prop_keys", "_select_prop_values", "_select_links"):
-        f = model.func(f"{X}.{nm}")
-        dedupe = any(isinstance(n, ast.If) and isinstance(n.test, ast.Compare) and isinstance(n.test.ops[0], ast.NotIn) for n in walk_no_nested(f.node))
-        rets = [r for r in walk_no_nested(f.node) if isinstance(r, ast.Return)]
-        alpha = any(isinstance(r.value, ast.IfExp) and "alpha_sort" in ast.unparse(r.value.test) and ast.unparse(r.value.body).startswith("sorted(") for r in rets)
-        run.check("C09.R3", f"{nm} lists distinct values, sorted only when ordered by alpha", dedupe and alpha, nm, "distinct + alpha", f"{nm} does not de-duplicate / alpha-sort as specified", file=FILE_X, node=f.node)
+    select_eval(run, model, lx_lits=None)
 
     # ---- R4
     lx = LexerGrammar(run.repo, FILE_LEXER)
@@ -175,30 +169,14 @@ def check(run: Run) -> None:
             ok = len(vals) == 1 and isinstance(vals[0], str) and vals[0].lstrip("\n") == lit
             run.check("C09.R4", f"level {lvl} header marker (of {k}) is the H{lvl}_HEADER token", ok, "_get_header", f"level {lvl}: {vals}",
                       f"_get_header({lvl}) gives {vals}, the lexer's H{lvl}_HEADER is {lit!r}: the rendered page does not parse into sections", file=FILE_X)
-    fs = model.func(f"{X}._select")
-    guards = [n for n in walk_no_nested(fs.node) if isinstance(n, ast.If) and any("_get_header" in ast.unparse(b) for b in n.body)]
-    guards.sort(key=lambda n: len(ast.unparse(n)))
-    guards = guards[:1]
-    ok = len(guards) == 1 and isinstance(guards[0].test, ast.Name) and not guards[0].orelse
-    run.check("C09.R4", "a header is omitted only when its label is empty", ok, "_select", guards[0].test if guards else "no guard",
-              "header emission is not guarded by exactly `if <label>`", file=FILE_X, node=fs.node)
-    rec = [c for c in ast.walk(fs.node) if isinstance(c, ast.Call) and model.callee(fs, c) == fs.qualname]
-    lvl_ok = any(kwarg(c, "level") is not None and ast.unparse(kwarg(c, "level")) == "level + 1" for c in rec)
     section_labels(run, model)
-    run.check("C09.R4", "one header level per grouping dimension", lvl_ok, "_select", "level + 1", "nested groups do not use the next header level", file=FILE_X, node=fs.node)
+    fs = model.func(f"{X}._select")
 
     # ---- R5
     fa = model.func(f"{T}.SelectAggregation.aggregate")
     rets = [r for r in walk_no_nested(fa.node) if isinstance(r, ast.Return) and r.value is not None]
     ok = len(rets) == 1 and ast.unparse(rets[0].value) == f"len({fa.params()[1].arg})"
     run.check("C09.R5", "count aggregates with len() of its argument", ok, "SelectAggregation.aggregate", rets[0] if rets else "no return", "count() is not len(values)", file=FILE_T, node=fa.node)
-    agg = [c for c in ast.walk(fs.node) if isinstance(c, ast.Call) and isinstance(c.func, ast.Attribute) and c.func.attr == "aggregate"]
-    ok = len(agg) == 1 and len(agg[0].args) == 1 and isinstance(agg[0].args[0], ast.Call) and ast.unparse(agg[0].args[0].func) == "selector" and ast.unparse(agg[0].args[0].args[0]) == "note_group"
-    run.check("C09.R5", "count(x) aggregates exactly what selecting x yields for the group", ok, "_select", agg[0] if agg else "no aggregate",
-              "the aggregate does not receive selector(note_group)", file=FILE_X, node=fs.node)
-    sels = [c for c in ast.walk(fs.node) if isinstance(c, ast.Call) and model.callee(fs, c) == f"{X}._get_selector"]
-    inner = [c for c in sels if "select_type.select_type" in ast.unparse(c)]
-    run.check("C09.R5", "the aggregated selector is the one of the inner select type", len(inner) == 1, "_select", "inner selector", "count(x) does not use x's selector", file=FILE_X, node=fs.node)
 
     # ---- R6
     ff = model.func(f"{T}._to_comparable_file")
@@ -265,3 +243,82 @@ def section_labels(run: Run, model: PyModel) -> None:
                       f"a note under {where} is grouped / ordered under the label {got} instead of {want!r}"
                       + (" (a stray separator for notes whose page has no H1: the header line and the section order change)" if not t1 else ""), file="src/zorg/domain/types.py", node=model.funcs[Q].node)
     run.floor("section label shapes", n, 8)
+
+
+def select_eval(run: Run, model: PyModel, lx_lits=None) -> None:
+    """Abstract evaluation of `_select` on generic groups of generic notes (marker bodies, tags out of alphabetical order with repeats):
+    every selector lists distinct values in first-seen order (sorted only under alpha), NOTE renders through Note.to_string, count(x) is
+    the number of values selecting x yields; nested groups get one header per non-empty label, with the lexer's H1..H4 markers in nesting order."""
+    from ..absint import State
+
+    I = Interp(model)
+    SS = {x.member: x for x in I.B.enum_members(I, model.cls(f"{T}.SelectStaticType"))}
+    lx = LexerGrammar(run.repo, FILE_LEXER)
+    H = {l: lx.literal_of(f"H{l}_HEADER") for l in (1, 2, 3, 4)}
+    st = State()
+
+    def L(*xs):
+        return st.alloc(HObj("list", items=list(xs)))
+
+    def N(body, tags, props, links, fp):
+        return st.alloc(HObj("obj", cls="zorg.domain.models._page.Note", fields=dict(
+            body=body, zid=None, todo_payload=None, areas=L(*tags), contexts=L(*tags), people=L(*tags), projects=L(*tags), properties=st.alloc(HObj("dict", fields=dict(props))),
+            links=L(*links), file_path=fp, create_date=None, modify_date=None, line_no=1, block=None)))
+
+    n1 = N("b1 text", ["b", "a"], {"k": "v2", "j": "x"}, ["l2", "l1"], "q.zo")
+    n2 = N("b2", ["a", "c"], {"k": "v1"}, ["l1"], "p.zo")
+    n3 = N("b3", [], {"k": "v2"}, [], "q.zo")
+    n4 = N("b4", [], {"k": ""}, [], "q.zo")
+    flat = L(n1, n2, n3)
+    grp = st.alloc(HObj("dict", fields={"G1": st.alloc(HObj("dict", fields={"S1": L(n1), "": L(n2)})), "": st.alloc(HObj("dict", fields={"S2": L(n3)}))}))
+    want = {"AREA": ["b", "a", "c"], "CONTEXT": ["b", "a", "c"], "PERSON": ["b", "a", "c"], "PROJECT": ["b", "a", "c"], "PROPERTY": ["k", "j"], "LINKS": ["l2", "l1"]}
+    fixed = {"FILE": ["p.zo", "q.zo"], "NOTE": ["- b1 text", "- b2", "- b3"]}
+    n = 0
+
+    def ev(sel, group, **kw):
+        try:
+            return I.run_function(f"{X}._select", [sel, group], kw, st=st.fork())
+        except Exception as e:
+            run.undecided("C09.R3", "_select", f"cannot interpret: {type(e).__name__}: {str(e)[:100]}")
+            return []
+
+    for mem in sorted(SS):
+        for alpha in (False, True):
+            for v, s in ev(SS[mem], flat, alpha_sort=alpha, num_of_levels=0):
+                n += 1
+                if isinstance(v, Raised) or s.imprecise or not isinstance(v, str):
+                    run.undecided("C09.R3", "_select", f"S {mem}: " + (f"raises {v.exc}" if isinstance(v, Raised) else "; ".join(s.imprecise[:2]) or repr(v)))
+                    continue
+                got = [l for l in v.split("\n") if l]
+                exp = fixed.get(mem) or (sorted(want[mem]) if alpha else want[mem])
+                run.check("C09.R3", f"S {mem.lower()}{' (alpha)' if alpha else ''} lists {exp}", got == exp, "_select", f"S {mem} alpha={alpha} -> {got}",
+                          f"selecting {mem} over notes whose values are b,a / a,c / (none) yields {got}, expected {exp}: values are repeated, dropped or re-ordered "
+                          f"({'sorted only when ordered by alpha' if not alpha else 'sorted under alpha'})", file=FILE_X)
+    for v, s in ev(SS["NOTE"], grp, alpha_sort=False, num_of_levels=2):
+        n += 1
+        if isinstance(v, Raised) or s.imprecise or not isinstance(v, str):
+            run.undecided("C09.R4", "_select", "nested groups: " + (f"raises {v.exc}" if isinstance(v, Raised) else "; ".join(s.imprecise[:2]) or repr(v)))
+            continue
+        got = [l for l in v.split("\n") if l.strip()]
+        exp = [f"{H[1]} G1", f"{H[2]} S1", "- b1 text", "- b2", f"{H[2]} S2", "- b3"]
+        run.check("C09.R4", "nested groups: one header per non-empty label, level markers in nesting order, no header for an empty label", got == exp, "_select", f"nested -> {got}",
+                  f"rendering {{G1: {{S1: [b1], '': [b2]}}, '': {{S2: [b3]}}}} gives {got}, expected {exp}", file=FILE_X)
+    flat4 = L(n1, n2, n3, n4)
+    for q, kw, exp, rid in ((f"{T}.SelectAggregation", dict(func_name="count", select_type=SS["AREA"]), ["3"], "C09.R5"), (f"{T}.SelectAggregation", dict(func_name="count", select_type=SS["NOTE"]), ["4"], "C09.R5"),
+                            (f"{T}.SelectPropertyValues", dict(key="k"), ["v2", "v1", ""], "C09.R3")):
+        s0 = st.fork()
+        for obj, s2 in I.construct(q, [], kw, s0):
+            try:
+                res = I.run_function(f"{X}._select", [obj, flat4], {"alpha_sort": False, "num_of_levels": 0}, st=s2)
+            except Exception as e:
+                run.undecided(rid, "_select", f"{q.split('.')[-1]}: cannot interpret: {type(e).__name__}")
+                continue
+            for v, s in res:
+                n += 1
+                if isinstance(v, Raised) or s.imprecise or not isinstance(v, str):
+                    run.undecided(rid, "_select", f"{q.split('.')[-1]}: " + (f"raises {v.exc}" if isinstance(v, Raised) else "; ".join(s.imprecise[:2]) or repr(v)))
+                    continue
+                got = v[:-2].split("\n") if v.endswith("\n\n") else [v]
+                run.check(rid, f"{q.split('.')[-1]}({', '.join(f'{k}={getattr(x, 'member', x)}' for k, x in kw.items())}) yields {exp}", got == exp, "_select", f"{q.split('.')[-1]} -> {got}",
+                          f"{q.split('.')[-1]} over four notes (areas b,a / a,c / - / -; property k = v2, v1, v2, '') yields {got}, expected {exp}" + (" (count(x) must be the number of values selecting x yields)" if "Aggregation" in q else ""), file=FILE_X)
+    run.floor("select evaluations", n, 18)
